@@ -103,7 +103,8 @@ def run_verus_unit(unit, keep_dir=None, extra_args=None, rlimit=None, mutate=Non
         res.assumed = {k: len(p.findall(nocomm)) for k, p in ASSUME_PATTERNS.items()}
         lines = text.split("\n")
         res.tags_present = sorted(set(TAG_RE.findall(text)))
-        cmd = ["verus", gen, "--output-json", "--time", "--multiple-errors", "8"]
+        # canary runs need only the first error of each function (everything after `assert(false)` is vacuous)
+        cmd = ["verus", gen, "--output-json", "--time", "--multiple-errors", "0" if os.environ.get("VP_CANARY") else "8"]
         if rlimit:
             cmd += ["--rlimit", str(rlimit)]
         if extra_args:
